@@ -205,5 +205,5 @@ RECURSIVE Leaves(_)
 Leaves(t) == IF IsLeaf(t) THEN <<t>> ELSE Flat([i \in 1..Len(t.kids) |-> Leaves(t.kids[i])])
 \* ... and a token merged with its neighbours (number blocks, primes, dots) survives only as part of a longer token,
 \* which keeps the id of one of the merged tokens; both cases are outside the asserted clause.
-SurvivesInOneToken(out, tok) == \E n \in ToSet(Leaves(out)) : Visible(n) = Visible(tok)
+SurvivesInOneToken(out, tok) == \E n \in ToSet(Leaves(out)) : Visible(n) = Visible(tok) /\ Len(n.cp) = Len(tok.cp)
 =============================================================================
